@@ -450,3 +450,16 @@ MUTANTS += [
     {"id": "n60", "prop": "C13", "expect": ["C13-R3"], "files": [(PN, "                self.nsp.get_assign(\n                    self.node.target.id,\n                    self._aug_assign_expr(\n                        target,\n                        self.node.op,\n                        assign_value,\n                        fallback=BinOp(\n                            left=target, op=self.node.op, right=assign_value\n                        ),\n                    ),\n                )", "                self._aug_assign_expr(\n                    target,\n                    self.node.op,\n                    assign_value,\n                    fallback=self.nsp.get_assign(\n                        self.node.target.id,\n                        BinOp(left=target, op=self.node.op, right=assign_value),\n                    ),\n                )")]},
     {"id": "n61", "prop": "C17", "expect": ["C17-R1"], "files": [(EU, "def unparse_Await(node: Await) -> unparse_gen_t:\n    value = yield PREC_AWAIT_SLOT, node.value\n    return f\"await {value}\"", "def unparse_Await(node: Await) -> unparse_gen_t:\n    value = expr_unparse(node.value)\n    return f\"await ({value})\"\n    yield")]},
 ]
+
+MUTANTS += [
+    {"id": "q01", "prop": "C06", "expect": ["C06-R10"], "files": [("oneliner/convert.py", "                nsp=nsp_stack[-1],", "                nsp=nsp_stack[0],")]},
+    {"id": "q02", "prop": "C06", "expect": ["C06-R10"], "files": [("oneliner/convert.py", "                if complete_node.has_internal_namespace:\n                    nsp_stack.pop()\n", "")]},
+    {"id": "q03", "prop": "C06", "expect": ["C06-R11"], "files": [("oneliner/namespaces.py", "            walk_stack.pop()\n            generate_stack.pop()", "            walk_stack.pop()")]},
+    {"id": "q04", "prop": "C03", "expect": ["C03-R7"], "files": [(EU, "    stack.append(_Node(PREC_EXPR_SLOT, node, '\"'))", "    stack.append(_Node(PREC_YIELD, node, '\"'))")]},
+    {"id": "q05", "prop": "C03", "expect": ["C03-R7"], "files": [(EU, "            stack.append(_Node(slot_prec, unconverted_node, stack[-1].qm))", "            stack.append(_Node(PREC_EXPR_SLOT, unconverted_node, stack[-1].qm))")]},
+    {"id": "q06", "prop": "C06", "expect": ["C06-R8"], "files": [("oneliner/expr_transform.py", "def expr_transf(nsp: Namespace, node: expr):\n    return ExpressionTransformer(nsp).cvt(node)", "def expr_transf(nsp: Namespace, node: expr):\n    if isinstance(node, (Constant, Attribute)):\n        return node\n    return ExpressionTransformer(nsp).cvt(node)")]},
+]
+EQUIVALENTS += [
+    {"id": "e17", "props": ["C06", "C08", "C02", "C01"], "why": "constants are returned unchanged by expr_transf (no names inside)",
+     "files": [("oneliner/expr_transform.py", "def expr_transf(nsp: Namespace, node: expr):\n    return ExpressionTransformer(nsp).cvt(node)", "def expr_transf(nsp: Namespace, node: expr):\n    if isinstance(node, Constant):\n        return node\n    return ExpressionTransformer(nsp).cvt(node)")]},
+]
